@@ -147,14 +147,15 @@ def run(ctx):
                 cases.append({"id": "n%d" % k, "kind": "c18_entry",
                               "abs": {"kind": "entry", "target": target, "path": path, "items": items, "base": base},
                               "args": {"target": target, "path": path, "items": items,
-                                       "iterable": ctx.rng.choice(["list", "tuple", "generator"])}})
+                                       "iterable": ctx.rng.choice(["list", "tuple", "generator"] + (
+                                           ["nested_iter", "generator"] if path == "from_multiple" else []))}})
                 k += 1
     check(ctx, cases)
     ctx.rule = ("filter cases = every (list up to %d elements over 8 shapes incl. repeated instances, equal TRS, error / undefined "
                 "components, parsed / unparsed) x (4 predicates, 16 filter_errors flag sets, 4 duplicate methods) x drop of "
                 "spec/Containers.tla, on TractList / TRSList / PLSSDesc wrappers; + random lists of 2..8 elements for filters, "
                 "group_by / group_by_nested (1..3 attributes) + unpack_group; entry paths: 8 paths x 2 containers x 11 element "
-                "kinds alone and in mixtures; non-trivial = distinct case" % (3 if thorough else 2))
+                "kinds alone and in mixtures, handed over as list / tuple / generator (from_multiple also as one nested one-shot iterator); non-trivial = distinct case" % (3 if thorough else 2))
     ctx.assumptions += ["elements are identified by object identity (repeated instances matched left to right)",
                         "group keys are compared through a fixed value table (twp/sec strings -> symbols)"]
 
